@@ -668,11 +668,15 @@ def check_purity(ctx, rep):
         raise AnalysisError(f"only {n} in-place updates found in the birth-death modules")
 
 
-def check_snapshots(ctx, rep):
-    """C09.P — a model must read its parameters when it is evaluated: a value taken from `<parameter>.tensor` in the constructor and used by _call is frozen"""
+def check_snapshots(ctx, rep, rule='C09.P', modules=None, floor=3):
+    """C09.P — a model must read its parameters when it is evaluated: a value taken from `<parameter>.tensor` in the constructor (directly or through a helper function of
+    the module that returns `<its argument>.tensor`) and used by _call is frozen"""
     n = 0
-    for mn in BD_MODULES:
+    for mn in (modules or BD_MODULES):
         m = ctx.prog.module(mn)
+        takers = {fname for fname, f in m.functions.items() if any(isinstance(r, ast.Return) and r.value is not None and any(
+            isinstance(x, ast.Attribute) and x.attr == 'tensor' and isinstance(x.value, ast.Name) and x.value.id in {a.arg for a in f.args.args} for x in ast.walk(r.value))
+            for r in ast.walk(f))}
         for cname, cnode in m.classes.items():
             init = next((b for b in cnode.body if isinstance(b, ast.FunctionDef) and b.name == '__init__'), None)
             if init is None:
@@ -682,17 +686,18 @@ def check_snapshots(ctx, rep):
             for st in ast.walk(init):
                 if not (isinstance(st, ast.Assign) and any(self_attr(t) for t in st.targets)):
                     continue
-                reads_tensor = [x for x in ast.walk(st.value) if isinstance(x, ast.Attribute) and x.attr == 'tensor']
+                reads_tensor = [x for x in ast.walk(st.value) if (isinstance(x, ast.Attribute) and x.attr == 'tensor')
+                                or (isinstance(x, ast.Call) and isinstance(x.func, ast.Name) and x.func.id in takers)]
                 if not reads_tensor:
                     continue
                 attr = next(self_attr(t) for t in st.targets if self_attr(t))
                 used = any(self_attr(x) == attr and isinstance(x.ctx, ast.Load) for f in others for x in ast.walk(f))
-                rep.check('C09.P', f"{cname}.__init__::self.{attr}-is-not-a-snapshot-of-a-parameter", not used, where(m, st), {'value': norm_text(st.value)[:80]},
+                rep.check(rule, f"{cname}.__init__::self.{attr}-is-not-a-snapshot-of-a-parameter", not used, where(m, st), {'value': norm_text(st.value)[:80]},
                           f"{cname}.__init__ stores `{norm_text(st.value)[:60]}` (the parameter's value at construction time) in self.{attr}, which the evaluation methods use: "
                           f"after the parameter is updated the model keeps computing with the old value")
-    if n < 3:
-        raise AnalysisError('birth-death classes not found')
-    rep.ok('C09.P', 'constructors::no-parameter-snapshots', '', {'constructors': n})
+    if n < floor:
+        raise AnalysisError(f'only {n} constructors found in {modules or BD_MODULES}')
+    rep.ok(rule, 'constructors::no-parameter-snapshots', '', {'constructors': n})
 
 
 def check_rho_alignment(ctx, rep):
